@@ -85,7 +85,18 @@ for _e in TABLE['callers']:
 def derived(ctx):
     root = ctx.func('pycdlib.PyCdlib._reshuffle_extents')
     R = ctx.reachable_from([root])
-    setters = [q for q in R if ctx.m.functions[q].name.startswith(('set_', 'update_')) and ctx.m.functions[q].cls is not None]
+    # a setter is "derived" when it writes at least one attribute that has no direct writer outside the pass
+    # (set_data_length, called from the pass for the enhanced VD's root record, writes data_length, which the
+    # edits maintain incrementally: not a derived location)
+    from .reshuffle import derived as _derived_attrs
+    D = _derived_attrs(ctx)[1]
+    from .. import effects as _eff
+
+    def _writes_derived(q):
+        fi = ctx.m.functions[q]
+        return any((cl, w.attr) in D for w in _eff.direct_writes(ctx, fi) for cl in w.classes)
+    setters = [q for q in R if ctx.m.functions[q].name.startswith(('set_', 'update_')) and ctx.m.functions[q].cls is not None
+               and _writes_derived(q)]
     if len(setters) < 30:
         raise AnalysisError('anchor-vanished: only %d derived setters reachable from _reshuffle_extents' % len(setters))
     obs = []
